@@ -95,6 +95,13 @@ theorem cnL_dropLastV_le (a : Leaf) : ∀ (l : List V), cnL a (dropLastV l) ≤ 
     simp only [dropLastV, cnL_cons] at ih ⊢
     omega
 
+theorem cnL_eq_sum_range (a : Leaf) : ∀ (l : List V),
+    cnL a l = ((List.range l.length).map (fun g => cn a ((l[g]?).getD .bad))).sum
+  | [] => by simp
+  | v :: r => by
+    rw [cnL_cons, cnL_eq_sum_range a r]
+    simp [List.range_succ_eq_map, List.map_map, Function.comp_def]
+
 /-! ### what a resource stands for -/
 
 structure RCtx where
@@ -131,19 +138,118 @@ theorem resCn_root (rc : RCtx) (a : Leaf) (i : Nat) : resCn rc a (.root i) = cn 
 
 /-! ### the relation between a run of the stores and its symbolic run -/
 
+/-- what the stores into field `g` may have brought -/
+def contrib (rc : RCtx) (a : Leaf) (ov : List (Nat × List Res)) (g : Nat) : Nat := sumRes rc a (ovGet ov g)
+
+theorem contrib_nil (rc : RCtx) (a : Leaf) (g : Nat) : contrib rc a [] g = 0 := by simp [contrib, ovGet]
+
+theorem ovGet_ovSet_eq (ov : List (Nat × List Res)) (f : Nat) (b : List Res) : ovGet (ovSet ov f b) f = b := by
+  simp [ovGet, ovSet, List.find?]
+
+theorem ovGet_filter_ne (f g : Nat) (h : g ≠ f) : ∀ (ov : List (Nat × List Res)),
+    ovGet (ov.filter (fun e => !(e.1 == f))) g = ovGet ov g
+  | [] => rfl
+  | e :: r => by
+    by_cases hef : e.1 = f
+    · have hne : ¬ (e.1 = g) := by intro h2; exact h (h2.symm.trans hef)
+      have h1 : (e.1 == f) = true := by simpa using hef
+      have h2 : (e.1 == g) = false := by simpa using hne
+      simp only [List.filter, h1, Bool.not_true]
+      rw [ovGet_filter_ne f g h r]
+      simp [ovGet, List.find?, h2]
+    · have h1 : (e.1 == f) = false := by simpa using hef
+      simp only [List.filter, h1, Bool.not_false]
+      by_cases heg : e.1 = g
+      · have h2 : (e.1 == g) = true := by simpa using heg
+        simp [ovGet, List.find?, h2]
+      · have h2 : (e.1 == g) = false := by simpa using heg
+        have ih := ovGet_filter_ne f g h r
+        simp only [ovGet, List.find?, h2] at ih ⊢
+        exact ih
+
+theorem ovGet_ovSet_ne (ov : List (Nat × List Res)) (f g : Nat) (b : List Res) (h : g ≠ f) :
+    ovGet (ovSet ov f b) g = ovGet ov g := by
+  have h2 : (f == g) = false := by simpa using (Ne.symm h)
+  have := ovGet_filter_ne f g h ov
+  simp only [ovGet, ovSet, List.find?, h2] at this ⊢
+  exact this
+
+theorem sum_range_ite_eq (w f : Nat) : ∀ (n : Nat),
+    ((List.range n).map (fun g => if f = g then w else 0)).sum = if f < n then w else 0
+  | 0 => by simp
+  | n + 1 => by
+    rw [List.range_succ, List.map_append, List.sum_append, sum_range_ite_eq w f n]
+    simp only [List.map_cons, List.map_nil, List.sum_cons, List.sum_nil]
+    by_cases h1 : f < n
+    · have h2 : ¬ (f = n) := by omega
+      have h3 : f < n + 1 := by omega
+      simp [h1, h2, h3]
+    · by_cases h2 : f = n
+      · have h3 : f < n + 1 := by omega
+        simp [h1, h2, h3]
+      · have h3 : ¬ (f < n + 1) := by omega
+        simp [h1, h2, h3]
+
+theorem sum_range_ite (w f n : Nat) : ((List.range n).map (fun g => if f = g then w else 0)).sum ≤ w := by
+  rw [sum_range_ite_eq]
+  split <;> omega
+
+theorem sum_map_zero : ∀ (l : List Nat), (l.map (fun _ => 0)).sum = 0
+  | [] => rfl
+  | _ :: r => by simp [sum_map_zero r]
+
+theorem sum_map_le {F G : Nat → Nat} : ∀ (l : List Nat), (∀ g ∈ l, F g ≤ G g) → (l.map F).sum ≤ (l.map G).sum
+  | [], _ => by simp
+  | x :: r, h => by
+    have h1 := h x (List.mem_cons_self ..)
+    have h2 := sum_map_le r (fun g hg => h g (List.mem_cons_of_mem _ hg))
+    simp only [List.map_cons, List.sum_cons]
+    omega
+
+theorem sum_map_add (F G : Nat → Nat) : ∀ (l : List Nat), (l.map (fun g => F g + G g)).sum = (l.map F).sum + (l.map G).sum
+  | [] => by simp
+  | x :: r => by
+    simp only [List.map_cons, List.sum_cons, sum_map_add F G r]
+    omega
+
+/-- the stores into all fields together bring at most what the entries list -/
+theorem sum_contrib_le (rc : RCtx) (a : Leaf) (n : Nat) : ∀ (ov : List (Nat × List Res)),
+    ((List.range n).map (contrib rc a ov)).sum ≤ sumRes rc a (ovAll ov)
+  | [] => by
+    have : ((List.range n).map (contrib rc a [])) = (List.range n).map (fun _ => 0) := by
+      apply List.map_congr_left
+      intro g _
+      exact contrib_nil rc a g
+    rw [this, sum_map_zero]
+    exact Nat.zero_le _
+  | e :: r => by
+    have ih := sum_contrib_le rc a n r
+    have hle : ∀ g ∈ List.range n, contrib rc a (e :: r) g ≤ (if e.1 = g then sumRes rc a e.2 else 0) + contrib rc a r g := by
+      intro g _
+      by_cases heg : e.1 = g
+      · have h2 : (e.1 == g) = true := by simpa using heg
+        simp [contrib, ovGet, List.find?, h2, heg]
+      · have h2 : (e.1 == g) = false := by simpa using heg
+        simp [contrib, ovGet, List.find?, h2, heg]
+    have h1 := sum_map_le (List.range n) hle
+    rw [sum_map_add] at h1
+    have h3 := sum_range_ite (sumRes rc a e.2) e.1 n
+    simp only [ovAll, sumRes_append]
+    omega
+
 /-- `v` is what `$i` has become, `st` is what the analysis knows about it -/
 def ArgR (rc : RCtx) (i : Nat) (st : SArg) (v : V) : Prop :=
   v = .bad ∨
-  ((∀ a, cn a v ≤ cn a (getArg rc.args i) + sumRes rc a st.extra) ∧
+  ((∀ a, cn a v ≤ cn a (getArg rc.args i) + sumRes rc a (ovAll st.ov)) ∧
    (∀ k u fs, v = .node k u fs → ∃ fs0, getArg rc.args i = .node k u fs0 ∧ fs0.length = fs.length ∧
-      ∀ g, st.touched.contains g = false → fs[g]? = fs0[g]?))
+      ∀ g a, cn a ((fs[g]?).getD .bad) ≤ cn a ((fs0[g]?).getD .bad) + contrib rc a st.ov g))
 
 def EnvR (rc : RCtx) (se : SEnv) (env : List V) : Prop := ∀ i, ArgR rc i (sget se i) (getArg env i)
 
 theorem ArgR_init (rc : RCtx) (i : Nat) : ArgR rc i {} (getArg rc.args i) := by
-  refine .inr ⟨fun a => by simp, ?_⟩
+  refine .inr ⟨fun a => by simp [ovAll], ?_⟩
   intro k u fs h
-  exact ⟨fs, h, rfl, fun _ _ => rfl⟩
+  exact ⟨fs, h, rfl, fun _ _ => by simp [contrib_nil]⟩
 
 theorem EnvR_init (rc : RCtx) : EnvR rc [] rc.args := by
   intro i
@@ -156,7 +262,7 @@ theorem EnvR_nil (rc : RCtx) : EnvR rc [] [] := by
   split <;> simp
 
 theorem ArgR_whole {rc : RCtx} {i : Nat} {st : SArg} {v : V} (h : ArgR rc i st v) (a : Leaf) :
-    cn a v ≤ sumRes rc a (.root i :: st.extra) := by
+    cn a v ≤ sumRes rc a (.root i :: ovAll st.ov) := by
   rcases h with rfl | ⟨h, _⟩
   · simp
   · simpa [resCn_root] using h a
@@ -212,53 +318,181 @@ theorem EnvR_store {rc : RCtx} {se : SEnv} {env : List V} (h : EnvR rc se env) (
         simp only [setPath]
         by_cases hf : f < fs.length
         · simp only [hf, if_true]
-          rcases hold with hb | ⟨hcnt, hnode⟩
+          rcases hold with hb | ⟨_, hnode⟩
           · rw [hv] at hb; cases hb
           · obtain ⟨fs0, ha0, hlen, hfld⟩ := hnode k u fs hv
+            -- the new field-wise bound
+            have hfld' : ∀ g a, cn a (((setNth fs f x)[g]?).getD .bad) ≤ cn a ((fs0[g]?).getD .bad) +
+                contrib rc a (ovSet (sget se j).ov f (if bx.contains (Res.fld j f) = true then bx.erase (Res.fld j f) else bx)) g := by
+              intro g a
+              by_cases hg : g = f
+              · subst hg
+                rw [setNth_getElem?_eq x fs g hf]
+                simp only [Option.getD_some, contrib, ovGet_ovSet_eq]
+                have hxa := hx a
+                by_cases hcond : bx.contains (Res.fld j g) = true
+                · simp only [hcond, if_true]
+                  have hmem : Res.fld j g ∈ bx := by simpa using hcond
+                  have hse := sumRes_erase rc a hmem
+                  have hrc : resCn rc a (.fld j g) = cn a ((fs0[g]?).getD .bad) := by
+                    simp [resCn, resLv, ha0, cn]
+                  omega
+                · simp only [hcond]
+                  simp only [Bool.false_eq_true, if_false]
+                  omega
+              · rw [setNth_getElem?_ne x fs f g hg]
+                simp only [contrib, ovGet_ovSet_ne _ _ _ _ hg]
+                exact hfld g a
             right
             refine ⟨?_, ?_⟩
             · intro a
-              have hc := hcnt a
-              rw [hv, cn_node] at hc
-              rw [cn_node, ha0, cn_node]
-              rw [ha0, cn_node] at hc
-              have heq := cnL_setNth_eq a x fs f hf
-              have hxa := hx a
-              simp only [sumRes_append]
-              by_cases hcond : ((!(sget se j).touched.contains f && bx.contains (Res.fld j f)) = true)
-              · simp only [hcond, if_true]
-                have hunt : (sget se j).touched.contains f = false := by
-                  have h0 := hcond
-                  simp only [Bool.and_eq_true, Bool.not_eq_true'] at h0
-                  exact h0.1
-                have hmem : Res.fld j f ∈ bx := by
-                  have h0 := hcond
-                  simp only [Bool.and_eq_true] at h0
-                  simpa using h0.2
-                have hfe := hfld f hunt
-                have hse := sumRes_erase rc a hmem
-                have hrc : resCn rc a (.fld j f) = cn a ((fs0[f]?).getD .bad) := by
-                  simp [resCn, resLv, ha0, cn]
-                rw [hfe] at heq
-                omega
-              · simp only [hcond]
-                have := cn_getD_le a fs f
-                simp only [Bool.false_eq_true, if_false]
-                omega
+              rw [cn_node, ha0, cn_node, cnL_eq_sum_range a (setNth fs f x), cnL_eq_sum_range a fs0, setNth_length, ← hlen]
+              have h1 := sum_map_le (List.range fs0.length) (fun g _ => hfld' g a)
+              rw [sum_map_add] at h1
+              have h2 := sum_contrib_le rc a fs0.length
+                (ovSet (sget se j).ov f (if bx.contains (Res.fld j f) = true then bx.erase (Res.fld j f) else bx))
+              dsimp only
+              omega
             · intro k' u' fs' hv'
               cases hv'
-              refine ⟨fs0, ha0, by rw [setNth_length]; exact hlen, ?_⟩
-              intro g hg
-              have hg' : g ≠ f ∧ (sget se j).touched.contains g = false := by
-                simp only [List.contains_eq_mem, List.mem_cons, decide_eq_false_iff_not, not_or] at hg
-                exact ⟨hg.1, by simpa using hg.2⟩
-              rw [setNth_getElem?_ne x fs f g hg'.1]
-              exact hfld g hg'.2
+              exact ⟨fs0, ha0, by rw [setNth_length]; exact hlen, hfld'⟩
         · simp only [hf, if_false]; left; trivial
       | _ => left; simp [setPath]
     · left; rfl
   · rw [getArg_setNth_ne env i j _ hj hi]
     simp only [sStore]
+    rw [sget_sset_ne _ _ _ _ hj]
+    exact h j
+
+theorem cnL_setLastV_eq (a : Leaf) (y : V) : ∀ (l : List V) (z : V), lastV l = some z →
+    cnL a (setLastV l y) + cn a z = cnL a l + cn a y
+  | [], _, h => by simp [lastV] at h
+  | [w], z, h => by
+    simp only [lastV, Option.some.injEq] at h
+    subst h
+    simp [setLastV]; omega
+  | w :: w2 :: r, z, h => by
+    simp only [lastV] at h
+    have ih := cnL_setLastV_eq a y (w2 :: r) z h
+    simp only [setLastV, cnL_cons] at ih ⊢
+    omega
+
+theorem cn_setPath_le (a : Leaf) (x : V) : ∀ (path : List Nat) (v : V) (f : Nat),
+    cn a (setPath v path f x) ≤ cn a v + cn a x
+  | [], v, f => by
+    cases v <;> simp only [setPath] <;> try simp
+    case node k u fs =>
+      split
+      · rw [cn_node, cn_node]
+        have := cnL_setNth_le a x fs f
+        omega
+      · simp
+  | p :: ps, v, f => by
+    cases v <;> (try simp only [setPath]) <;> try simp
+    case node k u fs =>
+      split
+      · rename_i sub hsub
+        have hp : p < fs.length := by
+          have := List.getElem?_eq_some_iff.mp hsub
+          exact this.1
+        have ih := cn_setPath_le a x ps sub f
+        have heq := cnL_setNth_eq a (setPath sub ps f x) fs p hp
+        rw [hsub] at heq
+        simp only [Option.getD_some] at heq
+        rw [cn_node, cn_node]
+        omega
+      · simp
+    case list xs =>
+      cases xs with
+      | nil => simp [setPath]
+      | cons w r =>
+        simp only [setPath]
+        split
+        · have ih := cn_setPath_le a x ps w f
+          simp only [cn_list, cnL_cons]
+          omega
+        · split
+          · split
+            · rename_i z hz
+              have ih := cn_setPath_le a x ps z f
+              have heq := cnL_setLastV_eq a (setPath z ps f x) (w :: r) z hz
+              simp only [cn_list]
+              omega
+            · simp
+          · simp
+
+theorem ovGet_cons_eq (ov : List (Nat × List Res)) (p : Nat) (b : List Res) : ovGet ((p, b) :: ov) p = b := by
+  simp [ovGet, List.find?]
+
+theorem ovGet_cons_ne (ov : List (Nat × List Res)) (p g : Nat) (b : List Res) (h : g ≠ p) : ovGet ((p, b) :: ov) g = ovGet ov g := by
+  have h2 : (p == g) = false := by simpa using (Ne.symm h)
+  simp [ovGet, List.find?, h2]
+
+/-- a store further down keeps the relation -/
+theorem EnvR_storePath {rc : RCtx} {se : SEnv} {env : List V} (h : EnvR rc se env) (i f p : Nat) (ps : List Nat) (hi : i ≠ 0)
+    {x : V} {bx : List Res} (hx : ∀ a, cn a x ≤ sumRes rc a bx) :
+    EnvR rc (sStorePath se i p bx) (setNth env (i - 1) (setPath (getArg env i) (p :: ps) f x)) := by
+  intro j
+  by_cases hj : j = i
+  · subst hj
+    rw [getArg_setNth_eq _ _ _ hi]
+    split
+    · simp only [sStorePath, sget_sset_eq]
+      rcases h j with hb | ⟨hcnt, hnode⟩
+      · left
+        rw [hb]
+        simp [setPath]
+      · by_cases hbad : setPath (getArg env j) (p :: ps) f x = .bad
+        · left; exact hbad
+        · right
+          refine ⟨?_, ?_⟩
+          · intro a
+            have h1 := cn_setPath_le a x (p :: ps) (getArg env j) f
+            have h2 := hcnt a
+            have h3 := hx a
+            simp only [ovAll, sumRes_append]
+            omega
+          · intro k u fs' hv'
+            cases hv : getArg env j with
+            | node k0 u0 fs =>
+              rw [hv] at hv'
+              simp only [setPath] at hv'
+              split at hv'
+              · rename_i sub hsub
+                cases hv'
+                obtain ⟨fs0, ha0, hlen, hfld⟩ := hnode k u fs hv
+                refine ⟨fs0, ha0, by rw [setNth_length]; exact hlen, ?_⟩
+                intro g a
+                have hp : p < fs.length := (List.getElem?_eq_some_iff.mp hsub).1
+                by_cases hg : g = p
+                · subst hg
+                  rw [setNth_getElem?_eq _ fs g hp]
+                  simp only [Option.getD_some, contrib, ovGet_cons_eq, sumRes_append]
+                  have h1 := cn_setPath_le a x ps sub f
+                  have h2 := hfld g a
+                  rw [hsub] at h2
+                  simp only [Option.getD_some, contrib] at h2
+                  have h3 := hx a
+                  omega
+                · rw [setNth_getElem?_ne _ fs p g hg]
+                  simp only [contrib, ovGet_cons_ne _ _ _ _ hg]
+                  exact hfld g a
+              · cases hv'
+            | list xs =>
+              rw [hv] at hv'
+              cases xs with
+              | nil => simp [setPath] at hv'
+              | cons w r =>
+                simp only [setPath] at hv'
+                split at hv'
+                · cases hv'
+                · split at hv'
+                  · split at hv' <;> cases hv'
+                  · cases hv'
+            | _ => rw [hv] at hv'; simp [setPath] at hv'
+    · left; rfl
+  · rw [getArg_setNth_ne env i j _ hj hi]
+    simp only [sStorePath]
     rw [sget_sset_ne _ _ _ _ hj]
     exact h j
 
@@ -417,21 +651,14 @@ theorem ArgR_field {rc : RCtx} {se : SEnv} {env : List V} (h : EnvR rc se env) (
   cases hv : getArg env i with
   | node k u fs =>
     simp only
-    split
-    · -- touched: everything `$i` owns
-      have := ArgR_whole hi a
-      rw [hv] at this
-      have h2 := cn_getD_le a fs f
-      have h3 := cnL_le_node a k u fs
-      unfold wholeB
-      omega
-    · rename_i hunt
-      rcases hi with hb | ⟨_, hnode⟩
-      · rw [hv] at hb; cases hb
-      · obtain ⟨fs0, ha0, _, hfld⟩ := hnode k u fs hv
-        have := hfld f (by simpa using hunt)
-        rw [this]
+    rcases hi with hb | ⟨_, hnode⟩
+    · rw [hv] at hb; cases hb
+    · obtain ⟨fs0, ha0, _, hfld⟩ := hnode k u fs hv
+      have := hfld f a
+      have hrc : resCn rc a (.fld i f) = cn a ((fs0[f]?).getD .bad) := by
         simp [resCn, resLv, ha0, cn]
+      simp only [sumRes_cons, hrc]
+      simpa [contrib] using this
   | _ => simp
 
 theorem fldB_sound {rc : RCtx} {c : ECtx} {sc : SCtx} (h : CtxR rc c sc) (t : Tm) (f : Nat) (a : Leaf)
@@ -649,17 +876,16 @@ theorem runMuts_sound (rc : RCtx) (toks : Array TokKey) (combs : List PosComb) (
       exact runMuts_sound rc toks combs objs ms _ _ ses' (EnvsR_snoc h hlast) hs
     · simp only [h0] at hs ⊢
       simp only [Bool.false_eq_true, if_false] at hs ⊢
-      by_cases hp : (!m.path.isEmpty) = true
-      · simp [hp] at hs
-      · simp only [hp, Bool.false_eq_true, if_false] at hs
-        have hpe : m.path = [] := by
-          cases hpp : m.path with
-          | nil => rfl
-          | cons x r => simp [hpp] at hp
-        rw [hpe]
-        have hne : m.arg ≠ 0 := by simpa using h0
+      have hne : m.arg ≠ 0 := by simpa using h0
+      cases hpp : m.path with
+      | nil =>
+        simp only [hpp] at hs
         refine runMuts_sound rc toks combs objs ms _ _ ses' (EnvsR_snoc h ?_) hs
         exact EnvR_store hlast m.arg m.field hne (fun a => sound_evalTm hc a m.val)
+      | cons p ps =>
+        simp only [hpp] at hs
+        refine runMuts_sound rc toks combs objs ms _ _ ses' (EnvsR_snoc h ?_) hs
+        exact EnvR_storePath hlast m.arg m.field p ps hne (fun a => sound_evalTm hc a m.val)
 
 theorem pathCtx_sound (toks : Array TokKey) (combs : List PosComb) (p : TPath) (args : List V) (cur : Option Nat) (uid0 : Nat)
     (sc : SCtx) (hs : sPathCtx p = some sc) :
@@ -705,13 +931,6 @@ theorem sum_le_of_nodup {α : Type} [DecidableEq α] (F : α → Nat) : ∀ (l u
       have ih := sum_le_of_nodup F r u hn'.2 (fun y hy => hs y (List.mem_cons_of_mem _ hy))
       simp only [List.map_cons, List.sum_cons, h0]
       omega
-
-theorem cnL_eq_sum_range (a : Leaf) : ∀ (l : List V),
-    cnL a l = ((List.range l.length).map (fun g => cn a ((l[g]?).getD .bad))).sum
-  | [] => by simp
-  | v :: r => by
-    rw [cnL_cons, cnL_eq_sum_range a r]
-    simp [List.range_succ_eq_map, List.map_map, Function.comp_def]
 
 inductive Cell where
   | own (i : Nat)
